@@ -1,6 +1,7 @@
 package props
 
 import (
+	"unicode/utf8"
 	"fmt"
 	"strings"
 
@@ -117,8 +118,51 @@ func c08StList(r *fw.Rand) string {
 	return sb.String()
 }
 
+// c08MacroNest puts '#EnableDice' switch lines where the parser reaches them inside a look-ahead
+// first (template holes and blocks, function/if/while bodies, after operators), with family
+// terms before and after, complete or broken off.
+func c08MacroNest(r *fw.Rand) string {
+	macro := func() string {
+		return "// #EnableDice " + r.Pick([]string{"wod", "coc", "fate", "doublecross"}) + " " + r.Pick([]string{"true", "false"}) + "\n"
+	}
+	term := func() string { return r.Pick([]string{"2a5", "a5", "b2", "p", "f", "3c8", "2a5 + f", "b + 1", "x", "d6", "a5 = 3", "f(1)", "c"}) }
+	inner := macro() + r.Pick([]string{"", " "}) + term()
+	var nest string
+	switch r.Intn(8) {
+	case 0:
+		nest = "`{ " + inner + " }`"
+	case 1:
+		nest = "`{% " + inner + " %}`"
+	case 2:
+		nest = "`a{" + inner + "}b{ " + term() + " }`"
+	case 3:
+		nest = "func g() {\n" + inner + " }; g()"
+	case 4:
+		nest = "if 1 {\n" + inner + " }"
+	case 5:
+		nest = "i = 0; while i < 1 {\n" + inner + "; i = i + 1 }"
+	case 6:
+		nest = "`{% " + inner + "; `{ " + macro() + term() + " }` %}`"
+	default:
+		nest = "[" + term() + ", `{" + inner + "}`]"
+	}
+	pre := r.Pick([]string{"", "", term() + " + ", term() + "; ", "1 + ", term() + " || ", "x = " + term() + "; ", macro() + term() + "; "})
+	post := r.Pick([]string{"", "", "; " + term(), " + " + term(), "\n" + macro() + term(), " " + term()})
+	s := pre + nest + post
+	if r.P(1, 4) && len(s) > 2 {
+		// broken off somewhere in the second half
+		s = s[:len(s)/2+r.Intn(len(s)/2)]
+		for len(s) > 0 && !utf8.ValidString(s) {
+			s = s[:len(s)-1]
+		}
+	}
+	return s
+}
+
 func c08Source(r *fw.Rand) (string, string) {
-	switch k := r.Intn(23); {
+	switch k := r.Intn(25); {
+	case k >= 23:
+		return c08MacroNest(r), "macro-nest"
 	case k >= 20:
 		return c08StList(r), "st-list"
 	case k < 5:
